@@ -472,7 +472,7 @@ func (f *frame) pureCall(in *ssa.Call) {
 		case "imax":
 			setT(sx("imax", args[0][0].T, args[1][0].T), sx("imax", args[0][1].T, args[1][1].T))
 			return
-		case "sameslice":
+		case "sameslice", "samemap":
 			setT(eq(args[0][0].T, args[1][0].T), eq(args[0][1].T, args[1][1].T))
 			return
 		case "str":
